@@ -40,6 +40,8 @@ typedef struct mv_config {
   int tail_preempt;      /* 0..255: P(switch)/256 at a run boundary once the bytes are exhausted */
   long step_budget;      /* max points+spins; beyond: inconclusive */
   int noise_level;       /* NOISE mode: 0..255 */
+  int burst_id;          /* spin id whose loop (one without inner points) polls burst_len times in place ... */
+  long burst_len;        /* ... before it starts handing the token on: a long window in which the awaited event does not happen */
 } mv_config;
 
 void mv_install(void);                    /* install the library hooks (MYTH_VERIF build) */
